@@ -2,9 +2,11 @@ package main
 
 import (
 	"fmt"
+	"go/constant"
 	"go/token"
 	"go/types"
 	"sort"
+	"strconv"
 	"strings"
 
 	"golang.org/x/tools/go/ssa"
@@ -17,13 +19,99 @@ import (
 // LE(k,base[idx]) / BE(k,base[idx]).
 
 type tb struct {
-	res   *Result
-	memo  map[ssa.Value]aff
-	names map[ssa.Value]string // caller-supplied atom names (parameters, loop phis, call results)
+	res    *Result
+	memo   map[ssa.Value]aff
+	names  map[ssa.Value]string // caller-supplied atom names (parameters, loop phis, call results)
+	subst  map[ssa.Value]aff    // callee parameter -> term of the argument (interprocedural inlining)
+	ssub   map[ssa.Value]string // callee parameter -> slice/other term of the argument
+	depth  int
+	tables map[*ssa.Global]*constTable
+	small  map[ssa.Value]bool // values known to be small non-negative integers (loop counters with constant bounds)
 }
 
 func newTB(res *Result) *tb {
-	return &tb{res: res, memo: map[ssa.Value]aff{}, names: map[ssa.Value]string{}}
+	t := &tb{res: res, memo: map[ssa.Value]aff{}, names: map[ssa.Value]string{}, subst: map[ssa.Value]aff{}, ssub: map[ssa.Value]string{}}
+	if res != nil {
+		for k, v := range res.Subst {
+			t.subst[k] = v
+		}
+		for k, v := range res.SSub {
+			t.ssub[k] = v
+		}
+	}
+	return t
+}
+
+// inline evaluates result idx of a call to an in-package function as a term of the caller: the callee is specialised on
+// the constant arguments, its parameters are replaced by the argument terms, and the result is used only if every reachable
+// return yields the same term (bounded depth, no recursion).
+func (t *tb) inline(c *ssa.Call, idx int, asSlice bool) (string, aff, bool) {
+	cal := c.Common().StaticCallee()
+	if cal == nil || cal.Blocks == nil || c.Common().IsInvoke() || t.depth >= maxInline {
+		return "", aff{}, false
+	}
+	home := c.Parent()
+	if cal.Pkg == nil || home == nil || enclosingPkg(home) != cal.Pkg || cal == home {
+		return "", aff{}, false
+	}
+	bind := map[ssa.Value]constant.Value{}
+	child := newTB(nil)
+	child.depth = t.depth + 1
+	child.tables = t.tables
+	for i, a := range c.Common().Args {
+		if i >= len(cal.Params) {
+			break
+		}
+		p := cal.Params[i]
+		if t.res != nil {
+			if l := t.res.get(a); l.k == cst && !l.nilc && l.tbl == nil && l.v != nil && l.v.Kind() != constant.Unknown {
+				bind[p] = l.v
+			}
+		} else if k, ok := a.(*ssa.Const); ok && k.Value != nil {
+			bind[p] = k.Value
+		}
+		if isIntegerType(a.Type()) {
+			child.subst[p] = t.term(a)
+		} else if b, ok := a.Type().Underlying().(*types.Basic); ok && b.Info()&types.IsBoolean != 0 {
+			if n, ok := t.names[a]; ok {
+				child.ssub[p] = n
+			} else {
+				child.ssub[p] = "?bool"
+			}
+		} else {
+			child.ssub[p] = t.sliceTerm(a)
+		}
+	}
+	sub := specializeAt(cal, bind, t.tables, t.depth+1)
+	child.res = sub
+	var out string
+	var outA aff
+	n := 0
+	for _, ret := range sub.Returns {
+		if idx >= len(ret.Results) {
+			return "", aff{}, false
+		}
+		var s string
+		var a aff
+		if asSlice {
+			s = child.sliceTerm(ret.Results[idx])
+		} else {
+			a = child.term(ret.Results[idx])
+			s = a.String()
+		}
+		if n > 0 && s != out {
+			return "", aff{}, false
+		}
+		if strings.Contains(s, "cycle:") {
+			return "", aff{}, false // the callee loops: its result is not a closed term
+		}
+		out, outA = s, a
+		n++
+	}
+	if n == 0 {
+		return "", aff{}, false
+	}
+	return out, outA, true
 }
 
 func intBits(t types.Type) (int, bool, bool) { // bits, unsigned, ok
@@ -36,6 +124,9 @@ func intBits(t types.Type) (int, bool, bool) { // bits, unsigned, ok
 
 // ubits: an upper bound on the number of significant bits of a non-negative value; 64 = unknown.
 func (t *tb) ubits(v ssa.Value) int {
+	if t.small[v] {
+		return 31
+	}
 	if t.res != nil {
 		if k, ok := t.res.constOf(v); ok {
 			if k < 0 {
@@ -148,7 +239,13 @@ func (t *tb) term(v ssa.Value) aff {
 func (t *tb) atomOf(format string, args ...interface{}) aff { return affAtom(fmt.Sprintf(format, args...)) }
 
 func (t *tb) term1(v ssa.Value) aff {
+	if a, ok := t.subst[v]; ok {
+		return a
+	}
 	if n, ok := t.names[v]; ok {
+		return affAtom(n)
+	}
+	if n, ok := t.ssub[v]; ok {
 		return affAtom(n)
 	}
 	if k, ok := t.constVal(v); ok {
@@ -238,7 +335,8 @@ func (t *tb) term1(v ssa.Value) aff {
 	case *ssa.UnOp:
 		if x.Op == token.MUL {
 			if ia, ok := x.X.(*ssa.IndexAddr); ok {
-				return t.atomOf("%s[%s]", t.sliceTerm(ia.X), t.term(ia.Index))
+				base, idx := t.elemRef(ia)
+				return t.atomOf("%s[%s]", base, idx)
 			}
 			if fv := forwardLoad(x); fv != nil {
 				return t.term(fv)
@@ -247,6 +345,9 @@ func (t *tb) term1(v ssa.Value) aff {
 		}
 		return t.atomOf("(%s %s)", x.Op.String(), t.term(x.X))
 	case *ssa.Phi:
+		if a, ok := t.loopIdiom(x); ok {
+			return a
+		}
 		var alts []string
 		var first aff
 		for i, e := range x.Edges {
@@ -267,6 +368,19 @@ func (t *tb) term1(v ssa.Value) aff {
 	case *ssa.Call:
 		c := x.Common()
 		if isBuiltin(c, "len") {
+			// len(x[lo:hi]) = hi-lo, len(x[lo:]) = len(x)-lo
+			if sl, ok := c.Args[0].(*ssa.Slice); ok {
+				if _, isPtr := sl.X.Type().Underlying().(*types.Pointer); !isPtr {
+					lo := affConst(0)
+					if sl.Low != nil {
+						lo = t.term(sl.Low)
+					}
+					if sl.High != nil {
+						return t.term(sl.High).add(lo, -1)
+					}
+					return t.atomOf("len(%s)", t.sliceTerm(sl.X)).add(lo, -1)
+				}
+			}
 			return t.atomOf("len(%s)", t.sliceTerm(c.Args[0]))
 		}
 		if f := c.StaticCallee(); f != nil && f.Pkg != nil && f.Pkg.Pkg.Path() == "encoding/binary" && strings.HasPrefix(f.Name(), "Uint") {
@@ -286,7 +400,34 @@ func (t *tb) term1(v ssa.Value) aff {
 					return t.atomOf("%s(%d,%s[0])", e, k, t.sliceTerm(s.X))
 				}
 			}
+			// UintN reads exactly the first N bytes of whatever slice it is given
+			width := map[string]int64{"Uint16": 2, "Uint32": 4, "Uint64": 8}[f.Name()]
+			if s, ok := arg.(*ssa.Slice); ok && width > 0 {
+				lo := affConst(0)
+				if s.Low != nil {
+					lo = t.term(s.Low)
+				}
+				fits := s.High == nil
+				if s.High != nil {
+					if k, ok := t.term(s.High).add(lo, -1).isConst(); ok && k >= width {
+						fits = true
+					}
+				}
+				if fits {
+					return t.atomOf("%s(%d,%s[%s])", e, width, t.sliceTerm(s.X), lo)
+				}
+			}
+			if width > 0 {
+				if _, isSlice := arg.(*ssa.Slice); !isSlice {
+					return t.atomOf("%s(%d,%s[0])", e, width, t.sliceTerm(arg))
+				}
+			}
 			return t.atomOf("%s(?,%s)", e, t.sliceTerm(arg))
+		}
+		if _, a, ok := t.inline(x, 0, false); ok && x.Type() != nil {
+			if _, isTuple := x.Type().(*types.Tuple); !isTuple {
+				return a
+			}
 		}
 		var as []string
 		for _, a := range c.Args {
@@ -298,6 +439,11 @@ func (t *tb) term1(v ssa.Value) aff {
 		}
 		return t.atomOf("%s(%s)", shortCallee(c), strings.Join(as, ","))
 	case *ssa.Extract:
+		if c, ok := x.Tuple.(*ssa.Call); ok {
+			if _, a, ok := t.inline(c, x.Index, false); ok {
+				return a
+			}
+		}
 		return t.atomOf("%s#%d", t.term(x.Tuple), x.Index)
 	case *ssa.Lookup, *ssa.Index:
 		return t.atomOf("idx:%s", v.Name())
@@ -330,6 +476,9 @@ func (t *tb) addrTerm(v ssa.Value) string {
 
 // sliceTerm names a slice-typed value.
 func (t *tb) sliceTerm(v ssa.Value) string {
+	if n, ok := t.ssub[v]; ok {
+		return n
+	}
 	if n, ok := t.names[v]; ok {
 		return n
 	}
@@ -374,8 +523,18 @@ func (t *tb) sliceTerm(v ssa.Value) string {
 		}
 		return "phi{" + strings.Join(alts, "|") + "}"
 	case *ssa.Call:
+		if _, isTuple := x.Type().(*types.Tuple); !isTuple && !isIntegerType(x.Type()) {
+			if s, _, ok := t.inline(x, 0, true); ok {
+				return s
+			}
+		}
 		return t.term(x).String()
 	case *ssa.Extract:
+		if c, ok := x.Tuple.(*ssa.Call); ok && !isIntegerType(x.Type()) {
+			if s, _, ok := t.inline(c, x.Index, true); ok {
+				return s
+			}
+		}
 		return t.term(x).String()
 	case *ssa.Const:
 		if x.Value == nil {
@@ -429,9 +588,22 @@ func (t *tb) byteCompose(root *ssa.BinOp) (aff, bool) {
 			if x.Op == token.MUL {
 				if ia, isIA := x.X.(*ssa.IndexAddr); isIA {
 					if bits, uns, isInt := intBits(x.Type()); isInt && uns && bits == 8 {
-						leaves = append(leaves, leaf{shift, t.sliceTerm(ia.X), t.term(ia.Index)})
+						base, idx := t.elemRef(ia)
+						leaves = append(leaves, leaf{shift, base, idx})
 						return
 					}
+				}
+			}
+		case *ssa.Call:
+			// an already-composed little-endian group (encoding/binary call or inlined helper) contributes its bytes
+			var k int64
+			var base, idx string
+			if n, _ := fmt.Sscanf(strings.NewReplacer("(", " ", ",", " ", "[", " ", "]", " ", ")", " ").Replace(t.term(x).String()), "LE %d %s %s", &k, &base, &idx); n == 3 && k >= 1 && k <= 8 {
+				if ia, err := parseSimpleAff(idx); err == nil {
+					for j := int64(0); j < k; j++ {
+						leaves = append(leaves, leaf{shift + 8*j, base, ia.add(affConst(j), 1)})
+					}
+					return
 				}
 			}
 		}
@@ -466,4 +638,252 @@ func (t *tb) byteCompose(root *ssa.BinOp) (aff, bool) {
 		return t.atomOf("BE(%d,%s[%s])", k, leaves[0].base, leaves[k-1].idx), true
 	}
 	return aff{}, false
+}
+
+
+// loopIdiom recognises the two byte-accumulation loops with a constant trip count and returns the value of the
+// accumulator after the loop as a closed term:
+//
+//	for i := 0; i < N; i++ { acc |= T(base[off+i]) << (8*i) }   ->  LE(N, base[off])      (also with +)
+//	for i := 0; i < N; i++ { acc = acc<<8 | T(base[off+i]) }    ->  BE(N, base[off])      (also with +, *256)
+//
+// N must be a constant under the specialisation (1..16) and the accumulator must start at 0.
+func (t *tb) loopIdiom(acc *ssa.Phi) (aff, bool) {
+	hdr := acc.Block()
+	if len(hdr.Preds) != 2 || len(acc.Edges) != 2 || !isIntegerType(acc.Type()) {
+		return aff{}, false
+	}
+	latch := -1
+	for i, p := range hdr.Preds {
+		if hdr.Dominates(p) {
+			latch = i
+		}
+	}
+	if latch < 0 {
+		return aff{}, false
+	}
+	if k, ok := t.constVal(acc.Edges[1-latch]); !ok || k != 0 {
+		return aff{}, false
+	}
+	// induction variable and bound
+	var iv *ssa.Phi
+	for _, in := range hdr.Instrs {
+		p, ok := in.(*ssa.Phi)
+		if !ok {
+			break
+		}
+		if p == acc || len(p.Edges) != 2 {
+			continue
+		}
+		c0, ok0 := t.constVal(p.Edges[1-latch])
+		bo, ok1 := p.Edges[latch].(*ssa.BinOp)
+		if ok0 && c0 == 0 && ok1 && bo.Op == token.ADD && bo.X == ssa.Value(p) {
+			if k, ok := t.constVal(bo.Y); ok && k == 1 {
+				iv = p
+			}
+		}
+	}
+	if iv == nil {
+		return aff{}, false
+	}
+	iff, ok := lastInstr(hdr).(*ssa.If)
+	if !ok {
+		return aff{}, false
+	}
+	cond, ok := iff.Cond.(*ssa.BinOp)
+	if !ok || cond.Op != token.LSS {
+		return aff{}, false
+	}
+	cx := cond.X
+	for {
+		if cv, isC := cx.(*ssa.Convert); isC {
+			cx = cv.X
+			continue
+		}
+		break
+	}
+	if cx != ssa.Value(iv) {
+		return aff{}, false
+	}
+	n, ok := t.constVal(cond.Y)
+	if !ok || n < 1 || n > 16 {
+		return aff{}, false
+	}
+	// body expression, with the induction variable as a named atom
+	sub := newTB(t.res)
+	sub.depth, sub.tables = t.depth, t.tables
+	for k, v := range t.names {
+		sub.names[k] = v
+	}
+	for k, v := range t.subst {
+		sub.subst[k] = v
+	}
+	for k, v := range t.ssub {
+		sub.ssub[k] = v
+	}
+	sub.names[iv] = "@i"
+	sub.names[acc] = "@acc"
+	sub.small = map[ssa.Value]bool{iv: true}
+	e, ok := acc.Edges[latch].(*ssa.BinOp)
+	if !ok || (e.Op != token.OR && e.Op != token.ADD) {
+		return aff{}, false
+	}
+	unconv := func(v ssa.Value) ssa.Value {
+		for {
+			if cv, isC := v.(*ssa.Convert); isC {
+				if _, _, isInt := intBits(cv.Type()); isInt {
+					v = cv.X
+					continue
+				}
+			}
+			return v
+		}
+	}
+	// byteAt: v is (a widening of) base[off+@i]; returns base name and off
+	byteAt := func(v ssa.Value) (string, aff, bool) {
+		u, ok := unconv(v).(*ssa.UnOp)
+		if !ok || u.Op != token.MUL {
+			return "", aff{}, false
+		}
+		ia, ok := u.X.(*ssa.IndexAddr)
+		if !ok {
+			return "", aff{}, false
+		}
+		idx := sub.term(ia.Index)
+		if !idx.ok || idx.syms["@i"] != 1 {
+			return "", aff{}, false
+		}
+		off := idx.add(affAtom("@i"), -1)
+		if strings.Contains(off.String(), "@") {
+			return "", aff{}, false
+		}
+		return sub.sliceTerm(ia.X), off, true
+	}
+	for _, pair := range [][2]ssa.Value{{e.X, e.Y}, {e.Y, e.X}} {
+		a, b := pair[0], pair[1]
+		// little-endian: acc OP (byte << 8*i)
+		if unconv(a) == ssa.Value(acc) {
+			if sh, ok := unconv(b).(*ssa.BinOp); ok && sh.Op == token.SHL {
+				amt := sub.term(sh.Y)
+				if c, isC := amt.add(affAtom("@i").scale(8), -1).isConst(); isC && c == 0 {
+					if base, off, ok := byteAt(sh.X); ok {
+						if n == 1 {
+							return t.atomOf("%s[%s]", base, off), true
+						}
+						return t.atomOf("LE(%d,%s[%s])", n, base, off), true
+					}
+				}
+			}
+		}
+		// big-endian: (acc << 8) OP byte
+		if sh, ok := unconv(a).(*ssa.BinOp); ok {
+			isShift := false
+			if sh.Op == token.SHL && unconv(sh.X) == ssa.Value(acc) {
+				if k, isK := t.constVal(sh.Y); isK && k == 8 {
+					isShift = true
+				}
+			}
+			if sh.Op == token.MUL && unconv(sh.X) == ssa.Value(acc) {
+				if k, isK := t.constVal(sh.Y); isK && k == 256 {
+					isShift = true
+				}
+			}
+			if isShift {
+				if base, off, ok := byteAt(b); ok {
+					if n == 1 {
+						return t.atomOf("%s[%s]", base, off), true
+					}
+					return t.atomOf("BE(%d,%s[%s])", n, base, off), true
+				}
+			}
+		}
+	}
+	return aff{}, false
+}
+
+
+// parseSimpleAff parses terms of the form "name", "name+k", "k" (as printed by aff.String for one atom).
+func parseSimpleAff(s string) (aff, error) {
+	if k, err := strconv.ParseInt(s, 10, 64); err == nil {
+		return affConst(k), nil
+	}
+	if i := strings.LastIndexAny(s, "+-"); i > 0 {
+		if k, err := strconv.ParseInt(s[i:], 10, 64); err == nil && !strings.ContainsAny(s[:i], "+-*() ") {
+			return affAtom(s[:i]).add(affConst(k), 1), nil
+		}
+	}
+	if !strings.ContainsAny(s, "+-*() ") {
+		return affAtom(s), nil
+	}
+	return aff{}, fmt.Errorf("not simple")
+}
+
+
+// elemRef names the element an IndexAddr denotes, looking through re-slicing: (x[lo:hi])[i] is x[lo+i].
+func (t *tb) elemRef(ia *ssa.IndexAddr) (string, aff) {
+	idx := t.term(ia.Index)
+	base := ia.X
+	for i := 0; i < 8; i++ {
+		if n, ok := t.ssub[base]; ok {
+			return n, idx
+		}
+		if n, ok := t.names[base]; ok {
+			return n, idx
+		}
+		switch x := base.(type) {
+		case *ssa.Slice:
+			if _, isPtr := x.X.Type().Underlying().(*types.Pointer); isPtr {
+				return t.sliceTerm(base), idx
+			}
+			if x.Low != nil {
+				idx = idx.add(t.term(x.Low), 1)
+			}
+			base = x.X
+			continue
+		case *ssa.ChangeType:
+			base = x.X
+			continue
+		case *ssa.UnOp:
+			if x.Op == token.MUL {
+				if fv := forwardLoad(x); fv != nil {
+					base = fv
+					continue
+				}
+			}
+		}
+		break
+	}
+	return t.sliceTerm(base), idx
+}
+
+// leqZero normalises an integer comparison to the form E <= 0 and returns E (so that equivalent bound tests print alike):
+// X<Y => X-Y+1, X<=Y => X-Y, X>Y => Y-X+1, X>=Y => Y-X. ok is false for other operators.
+func (t *tb) leqZero(c *ssa.BinOp, negate bool) (string, bool) {
+	x, y := t.term(c.X), t.term(c.Y)
+	op := c.Op
+	if negate {
+		switch op {
+		case token.LSS:
+			op = token.GEQ
+		case token.LEQ:
+			op = token.GTR
+		case token.GTR:
+			op = token.LEQ
+		case token.GEQ:
+			op = token.LSS
+		default:
+			return "", false
+		}
+	}
+	switch op {
+	case token.LSS:
+		return x.add(y, -1).add(affConst(1), 1).String(), true
+	case token.LEQ:
+		return x.add(y, -1).String(), true
+	case token.GTR:
+		return y.add(x, -1).add(affConst(1), 1).String(), true
+	case token.GEQ:
+		return y.add(x, -1).String(), true
+	}
+	return "", false
 }
